@@ -514,6 +514,42 @@ def _one(ctx, spec, states, n, T, seed, run, profile) -> bool:
                 if any(len(bs) != n for bs in val):
                     ctx.viol("C20/bitstrings-length", 0, f"{tag}: bitstrings do not have one bit per atom")
                     return False
+                if n <= 3:
+                    # the JOINT distribution: ideal outcome probabilities from the
+                    # diagonal of rho, then independent per-bit detection errors
+                    from scipy.stats import binom
+
+                    diag = np.real(np.diag(rho))
+                    one_idx = states.index(one)
+                    ideal = {}
+                    for idx, pr in enumerate(diag):
+                        bits, x = [], idx
+                        for _ in range(n):
+                            bits.append("1" if x % d == one_idx else "0")
+                            x //= d
+                        b = "".join(reversed(bits))
+                        ideal[b] = ideal.get(b, 0.0) + max(pr, 0.0)
+                    joint = {}
+                    for b, pb in ideal.items():
+                        for m in range(2**n):
+                            b2 = format(m, f"0{n}b")
+                            w = pb
+                            for x, y in zip(b, b2):
+                                w *= ((1 - fn) if y == "1" else fn) if x == "1" else (fp if y == "1" else (1 - fp))
+                            joint[b2] = joint.get(b2, 0.0) + w
+                    for b2, pj in joint.items():
+                        kj = val.get(b2, 0)
+                        pj = min(max(pj, 0.0), 1.0)
+                        pval = min(binom.cdf(kj, shots, pj), binom.sf(kj - 1, shots, pj))
+                        stats["bit_joint_outcomes_checked"] += 1
+                        if pval < 1e-10 / 2**n:
+                            msg = f"{tag} at t={t}: outcome {b2} seen {kj} times in {shots} shots, the state and independent detection errors (p_false_pos={fp}, p_false_neg={fn}) give probability {pj:.6f} (binomial tail {pval:.2e})"
+                            if fp or fn:
+                                ctx.viol("C11/detection-errors", 0, msg)
+                            ctx.viol("C20/bitstrings-distribution", 0, msg)
+                            return False
+                    if fp or fn:
+                        stats["probe/joint_distribution_under_detection_errors"] += 1
     # ------------------------------------------------- C11: legacy == V2 states
     if not stochastic and legacy is not None:
         try:
